@@ -430,8 +430,8 @@ Section WithHash.
     apply wf_ord_inv in Hwf. destruct Hwf as (Hty & Hlb & Hlr & Hwrs).
     assert (Hds : Forall (fun r => s_depth r <= 1023) rs).
     { apply maxl_le_Forall. rewrite s_depth_cell in Hsmall. destruct rs; [cbn; lia|lia]. }
-    unfold calculate_representation_hash, get_representation.
-    cbn [kof k_refs k_ty k_mask k_bits].
+    unfold calculate_representation_hash, get_representation, repr_payload.
+    cbn [kof k_refs k_ty k_mask k_bits k_hashes rev app].
     rewrite map_length, (refs_descriptor_ord _ Hlr). cbn [bind].
     rewrite (bits_descriptor_spec _ Hlb). cbn [bind].
     rewrite (mapM_repr_depths _ Hds). cbn [bind rmap].
